@@ -2,7 +2,7 @@
 import solvercheck, framework
 PID = "C04"
 MODULE = "MysticVerif.Props.Solve"
-THEOREMS = ["MysticVerif.C04.de_history_antitone", "MysticVerif.C04.de_last_history_is_best", "MysticVerif.C04.de_one_record_per_step", "MysticVerif.C04.de_log_prefix", "MysticVerif.C04.de_evalmon_records", "MysticVerif.C04.de_evals_per_step", "MysticVerif.C04.nm_history", "MysticVerif.C04.step_evals", "MysticVerif.C04.finalize_setLimits_keep_evals", "MysticVerif.C04.evals_eq_sum_of_ran", "MysticVerif.C04.pw_history_antitone", "MysticVerif.C04.pw_last_history_is_best", "MysticVerif.C04.pw_log_prefix", "MysticVerif.C04.pw_evalmon_records", "MysticVerif.C04.pw_one_record_per_step", "MysticVerif.C04.pw_at_most_one_record_per_call", "MysticVerif.SolveProps.solve_evaluations_are_the_log", "MysticVerif.SolveProps.solve_de_evaluations", "MysticVerif.Closed.stepOnce_gens", "MysticVerif.C04.brent_oracle_lsMono", "MysticVerif.C04.pw_history_antitone_brent", "MysticVerif.C04.pw_best_le_initial_guess_brent", "MysticVerif.SolveProps.solve_nm_members", "MysticVerif.SolveProps.solve_pw_history", "MysticVerif.SolveProps.solve_pw_evaluations", "MysticVerif.Reconfig.reconfigured_log_prefix", "MysticVerif.Reconfig.reconfigured_bestE_le", "MysticVerif.Reconfig.reconfigured_one_record_per_iteration", "MysticVerif.Reconfig.reconfigured_history_antitone"]
+THEOREMS = ["MysticVerif.C04.de_history_antitone", "MysticVerif.C04.de_last_history_is_best", "MysticVerif.C04.de_one_record_per_step", "MysticVerif.C04.de_log_prefix", "MysticVerif.C04.de_evalmon_records", "MysticVerif.C04.de_evals_per_step", "MysticVerif.C04.nm_history", "MysticVerif.C04.step_evals", "MysticVerif.C04.finalize_setLimits_keep_evals", "MysticVerif.C04.evals_eq_sum_of_ran", "MysticVerif.C04.pw_history_antitone", "MysticVerif.C04.pw_last_history_is_best", "MysticVerif.C04.pw_log_prefix", "MysticVerif.C04.pw_evalmon_records", "MysticVerif.C04.pw_one_record_per_step", "MysticVerif.C04.pw_at_most_one_record_per_call", "MysticVerif.SolveProps.solve_evaluations_are_the_log", "MysticVerif.SolveProps.solve_de_evaluations", "MysticVerif.Closed.stepOnce_gens", "MysticVerif.C04.brent_oracle_lsMono", "MysticVerif.C04.pw_history_antitone_brent", "MysticVerif.C04.pw_best_le_initial_guess_brent", "MysticVerif.SolveProps.solve_nm_members", "MysticVerif.SolveProps.solve_pw_history", "MysticVerif.SolveProps.solve_pw_evaluations", "MysticVerif.Reconfig.reconfigured_log_prefix", "MysticVerif.Reconfig.reconfigured_bestE_le", "MysticVerif.Reconfig.reconfigured_one_record_per_iteration", "MysticVerif.Reconfig.reconfigured_history_antitone", "MysticVerif.Reconfig.nm_reconfigured_evaluations_segmented"]
 
 
 def run_shard(pid, seed, shard, ncases, tier, extra):
